@@ -22,7 +22,7 @@ for pid in ALL:
         level_note=pm.LEVEL_NOTE, technique=pm.TECHNIQUE))
 man = dict(
     version=1, setup_cmd="./bootstrap.sh",
-    hooks=dict(guard="ANKIT76_AD_AFQMC_VERIF", enable="export ANKIT76_AD_AFQMC_VERIF=1 (set by ./check); hooks are inert unless the harness pre-seeds the prop_data keys",
+    hooks=dict(guard="ANKIT76_AD_AFQMC_VERIF", enable="export ANKIT76_AD_AFQMC_VERIF=1 (set by ./check). No hook exists in /repo: source_commits is empty and nothing in the repository reads the guard",
                baseline_off_cmd="cd /repo && env -u ANKIT76_AD_AFQMC_VERIF /venv/bin/python -m pytest -ra -q -p no:cacheprovider --timeout=900 --continue-on-collection-errors",
                source_commits=json.load(open("hooks.json"))["source_commits"], add_only=True),
     engines=[dict(name="pyvc", path="vc/pyvc", serves_properties=[c["property_id"] for c in checks if "pyvc" in c["engine"]],
